@@ -246,10 +246,13 @@ def np_index(eng, st, arr, idx, line=0):
             raise Unsupported("mixed fancy indexing")
         rest = arr.shape[1:]
         nd = len(ia.shape)
+        if not st.ghost:
+            # every gathered index must be in range (checked once, for all positions)
+            n0 = arr.shape[0]
+            eng.oblige(st, "safe", f"index:fancy@{line}", forall_elems(eng, st, ia, lambda j: V.b_and(V.cmp("<=", 0, j), V.cmp("<", j, n0))))
 
         def fn(ix, ia=ia, arr=arr, nd=nd):
             j = ia.fn(tuple(ix[:nd]))
-            eng.check_index(st, j, arr.shape[0], f"fancy@{line}")
             return arr.fn((j,) + tuple(ix[nd:]))
 
         return ArrV(tuple(ia.shape) + tuple(rest), fn, arr.dtype)
@@ -336,6 +339,7 @@ def np_compress(eng, st, arr, mask):
         mp = V.bool_term(eng.truthy(st, mask.fn((Sym(p, "int"),))))
         st.fact(z3.ForAll([p], z3.Implies(z3.And(0 <= p, p < nt, mp), z3.And(rank(p) >= 0, rank(p) < m.t, sel(rank(p)) == p)), patterns=[rank(p)]))
     m, sel, rank = mask._cinfo
+    eng.last_compress = mask._cinfo
     rest = arr.shape[1:]
 
     def fn(ix, arr=arr, sel=sel):
